@@ -3,9 +3,11 @@ package c17
 // C17 - the yaotl parsers accept any input without crashing and report sane positions.
 //
 //   (a) random bytes / grammar-generated sources / the repository's corpora, mutated;
-//   (b) deep nesting up to depth 5000.
+//   (b) deep nesting up to depth 5000;
+//   (d) nesting depth around the values a hand-written limit takes (1000 .. 16384, thorough
+//       100000), each case in a child process with a memory ceiling (limit_test.go).
 //
-// Both feed checkCase (oracle_test.go).
+// All feed checkCase (oracle_test.go); (c) is rev_test.go.
 
 import (
 	"encoding/json"
@@ -255,7 +257,7 @@ func TestC17b(t *testing.T) {
 	core.SetExtra("b_depth_bound", deepMax)
 	core.Run(t, core.Spec[Case]{
 		Property: "C17", Sub: "b",
-		Rule: "deep nesting: one of 30 nesting shapes (parentheses, brackets, object braces, calls, index, splat, unary chains, conditional chains, quoted/heredoc interpolation nests, for expressions, template if/for directives, nested blocks, comment openers, JSON arrays/objects/mixed, templates inside JSON strings) repeated to depth 1..5000 (boundary depths favoured), balanced / unclosed / partly closed / over-closed, through the entry points that accept the shape; same oracle as (a), which includes: no stack exhaustion (would kill the process and be reported as crash) and return within 30 s. Non-trivial: as (a). distinct = (entry point, shape, depth bucket, closing, has-errors)",
+		Rule: "deep nesting: one of 30 nesting shapes (parentheses, brackets, object braces, calls, index, splat, unary chains, conditional chains, quoted/heredoc interpolation nests, for expressions, template if/for directives, nested blocks, comment openers, JSON arrays/objects/mixed, templates inside JSON strings) repeated to depth 1..5000 (boundary depths favoured), balanced / unclosed / partly closed / over-closed, through the entry points that accept the shape; same oracle as (a), which includes: no stack exhaustion (would kill the process and be reported as crash) and return within 30 s. Non-trivial: as (a). distinct = (entry point, shape, depth bucket, closing, has-errors). Ten more shapes: the %{ if } / %{ for } directive nests in every template carrier - shortest spelling `%{if a}`, if-else, alternating if-for, strip markers (bare template), quoted string, heredoc, flush heredoc, JSON string; depths beyond 5000, around the values a hand-written limit takes, are sub-check (d)",
 		Gen:   genDeep, Check: check, Classify: classify,
 		Assumptions: assumptions,
 	})
